@@ -770,9 +770,13 @@ func replay(path string) {
 	var doc struct {
 		Replay map[string]interface{} `json:"replay"`
 		Seed   uint64                 `json:"seed"`
+		Tier   string                 `json:"tier"`
 	}
 	json.Unmarshal(b, &doc)
 	seedUsed = doc.Seed
+	if doc.Tier == "quick" || doc.Tier == "thorough" {
+		r.Tier = doc.Tier // stream re-runs must draw the same number of cases as the recorded run
+	}
 	num := func(k string) uint64 { f, _ := doc.Replay[k].(float64); return uint64(f) }
 	str := func(k string) string { s, _ := doc.Replay[k].(string); return s }
 	switch str("op") {
@@ -802,7 +806,7 @@ func replay(path string) {
 			}
 		}
 		checkFinal("replay", uint32(num("lock")), sq, uint32(num("height")), uint32(num("time")))
-	case "block":
+	case "block", "weight-block":
 		replayBlock(doc.Replay)
 	default:
 		// gnwr / mtp cases and proof-level violations are reproduced by re-running the stream with the same seed
